@@ -86,10 +86,10 @@ pub fn profile(name: &str) -> Profile {
     };
     match name {
         "C01" => Profile { name: "C01", w_token: 8, reuse_bias: 4, kinds: [4, 3, 3, 4, 2, 1, 0, 5, 0], w_cause: 10, err_returns: true, adapters: 2, ..base },
-        "C02" => Profile { name: "C02", w_cause: 12, max_sources: 8, kinds: [3, 3, 2, 6, 0, 1, 0, 0, 0], err_returns: true, adapters: 2, ..base },
+        "C02" => Profile { name: "C02", faults: true, scripted_faults: true, w_cause: 12, max_sources: 8, kinds: [3, 3, 2, 6, 0, 1, 0, 0, 0], err_returns: true, adapters: 2, ..base },
         "C03" => Profile { name: "C03", kinds: [10, 0, 1, 2, 0, 0, 0, 0, 0], w_cause: 12, err_returns: true, ..base },
         "C04" => Profile { name: "C04", kinds: [1, 10, 1, 1, 0, 0, 0, 0, 0], w_cause: 14, err_returns: true, ..base },
-        "C05" => Profile { name: "C05", kinds: [2, 1, 10, 1, 0, 0, 0, 2, 0], w_advance: 6, err_returns: true, ..base },
+        "C05" => Profile { name: "C05", scripted_faults: true, kinds: [2, 1, 10, 1, 0, 0, 0, 2, 0], w_advance: 6, err_returns: true, ..base },
         "C06" => Profile { name: "C06", w_token: 9, w_insert: 7, reuse_bias: 3, err_returns: true, ..base },
         "C07" => Profile { name: "C07", w_token: 10, err_returns: true, scripted_faults: true, kinds: [3, 3, 3, 3, 3, 1, 1, 0, 1], ..base },
         "C08" => Profile { name: "C08", kinds: [3, 3, 3, 3, 1, 3, 1, 0, 0], adapters: 3, script_len: (1, 5), script_ops: (1, 6), w_idle: 4, ..base },
@@ -97,9 +97,9 @@ pub fn profile(name: &str) -> Profile {
         "C10" => Profile { name: "C10", kinds: [1, 1, 1, 0, 0, 8, 5, 0, 0], w_cause: 14, ..base },
         "C19" => Profile { name: "C19", kinds: [1, 0, 1, 0, 0, 0, 0, 0, 0], signals: 14, w_token: 4, max_sources: 3, ..base },
         "C18" => Profile { name: "C18", kinds: [1, 0, 1, 1, 0, 0, 0, 0, 10], w_token: 9, w_cause: 10, ..base },
-        "C17" => Profile { name: "C17", kinds: [1, 0, 1, 2, 0, 8, 0, 0, 0], adapters: 12, w_cause: 10, max_sources: 5, natural_faults: true, err_returns: true, ..base },
+        "C17" => Profile { name: "C17", faults: true, kinds: [1, 0, 1, 2, 0, 8, 0, 0, 0], adapters: 12, w_cause: 10, max_sources: 5, natural_faults: true, err_returns: true, ..base },
         "C11" => Profile { name: "C11", kinds: [3, 2, 3, 2, 0, 1, 0, 0, 0], w_dispatch: 12, w_misc: 5, run_bias: 5, ..base },
-        "C12" => Profile { name: "C12", kinds: [2, 1, 8, 1, 0, 0, 0, 0, 0], w_dispatch: 10, w_advance: 5, w_cause: 3, ..base },
+        "C12" => Profile { name: "C12", scripted_faults: true, kinds: [2, 1, 8, 1, 0, 0, 0, 0, 0], w_dispatch: 10, w_advance: 5, w_cause: 3, ..base },
         "C13" => Profile { name: "C13", w_idle: 10, err_returns: true, ..base },
         "C15" => Profile { name: "C15", adapters: 3, faults: false, scripted_faults: true, natural_faults: true, err_returns: true, kinds: [3, 2, 3, 6, 0, 0, 0, 0, 0], ..base },
         "C14" => Profile { name: "C14", kinds: [2, 1, 2, 2, 8, 0, 0, 0, 0], w_token: 9, w_misc: 4, faults: true, scripted_faults: true, err_returns: true, ..base },
@@ -246,7 +246,13 @@ impl G {
             KindTag::Transient => match self.rng.below(10) {
                 0..=5 => Ret::Continue,
                 6 | 7 => Ret::Reregister,
-                8 => Ret::Disable,
+                8 => {
+                    if self.rng.chance(1, 3) {
+                        Ret::DisableBoth
+                    } else {
+                        Ret::Disable
+                    }
+                }
                 _ => Ret::Remove,
             },
             KindTag::Generic => match self.rng.below(10) {
@@ -479,7 +485,7 @@ impl G {
                 let keep_rejected = self.rng.chance(2, 3);
                 let sock = self.rng.chance(1, 3);
                 let synth_on_sock = sock && self.rng.chance(2, 3);
-                Op::InsertLifecycle { id, with_ping, with_timer: None, synth, script, two, fail_step2, keep_rejected, sock, synth_on_sock }
+                Op::InsertLifecycle { id, with_ping, with_timer: None, synth, script, two, fail_step2, keep_rejected, sock, synth_on_sock, forgetful: self.rng.chance(1, 3) }
             }
             KindTag::Generic => {
                 let mut fd = match self.rng.below(6) {
@@ -555,6 +561,25 @@ impl G {
         }
         if !self.sw.idles {
             w[5] = 0;
+        }
+        if p.kinds[4] >= 3 && self.rng.chance(1, 25) {
+            // every lifecycle source is disabled (or removed) at once: the loop's lifecycle set
+            // becomes empty while other sources go on
+            let life: Vec<Id> = self.srcs.iter().filter(|s| s.1 == KindTag::Lifecycle).map(|s| s.0).collect();
+            if !life.is_empty() {
+                let mut v = Vec::new();
+                // often right after a dispatch in which the before_sleep of the last-listed one
+                // failed (what earlier ones had returned by then is left over in the loop)
+                if (p.scripted_faults || p.faults) && life.len() >= 2 && self.rng.chance(1, 2) {
+                    v.push(Op::FailNext { id: *life.last().unwrap(), what: 5, nth: 0 });
+                    v.push(Op::Dispatch(Timeout::Zero));
+                }
+                // which one is removed rather than disabled, if any
+                let removed = if self.rng.chance(1, 2) { Some(self.rng.below(life.len() as u64) as usize) } else { None };
+                v.extend(life.iter().enumerate().map(|(i, id)| if Some(i) == removed { Op::Remove(*id) } else { Op::Disable(*id) }));
+                v.push(Op::Dispatch(Timeout::Zero));
+                return v;
+            }
         }
         match self.rng.weighted(&w) {
             0 => vec![self.insert_op(0)],
